@@ -31,6 +31,7 @@ def value_corpus(F, tier, name):
     recs += gen.g_pow10_thresholds(F, rng, tier)
     recs += gen.g_lemire_refined(F, rng, tier)
     recs += gen.g_refined_next(F, rng, tier)
+    recs += gen.g_midword_products(F, rng, tier)
     recs += gen.g_wide_exact_products(F, rng, tier)
     recs += gen.g_slow_grid(F, rng, tier)
     recs += gen.g_long_pos_ties(F, rng, tier)
